@@ -31,6 +31,13 @@ from bip_utils.ecc.ecdsa.ecdsa_keys import EcdsaKeysConst
 from bip_utils.utils.misc import DataBytes, IntegerUtils
 
 
+class Secp256k1CoincurveConst:
+    """Class container for secp256k1 coincurve constants."""
+
+    # Curve order
+    CURVE_ORDER: int = 0xFFFFFFFFFFFFFFFFFFFFFFFFFFFFFFFEBAAEDCE6AF48A03BBFD25E8CD0364141
+
+
 class Secp256k1PointCoincurve(IPoint):
     """
     Secp256k1 point class.
@@ -54,7 +61,7 @@ class Secp256k1PointCoincurve(IPoint):
         """
         if len(point_bytes) == EcdsaKeysConst.PUB_KEY_UNCOMPRESSED_BYTE_LEN - 1:
             return cls(coincurve.PublicKey(EcdsaKeysConst.PUB_KEY_UNCOMPRESSED_PREFIX + point_bytes))
-        if len(point_bytes) == EcdsaKeysConst.PUB_KEY_COMPRESSED_BYTE_LEN:
+        if len(point_bytes) in (EcdsaKeysConst.PUB_KEY_COMPRESSED_BYTE_LEN, EcdsaKeysConst.PUB_KEY_UNCOMPRESSED_BYTE_LEN):
             return cls(coincurve.PublicKey(point_bytes))
         raise ValueError("Invalid point bytes")
 
@@ -198,6 +205,10 @@ class Secp256k1PointCoincurve(IPoint):
         Returns:
             IPoint object: IPoint object
         """
+        # Same behaviour of the ecdsa-based class: the scalar is reduced modulo the curve order
+        scalar %= Secp256k1CoincurveConst.CURVE_ORDER
+        if scalar == 0:
+            raise ValueError("Invalid scalar (the result is the point at infinity)")
         return self.__class__(self.m_pub_key.multiply(IntegerUtils.ToBytes(scalar)))
 
     def __rmul__(self,
